@@ -186,7 +186,7 @@ def run_history(ops, order_seed):
     return None, probes, trace
 
 
-class C09:
+class C09Base:
     ID = 'C09'
     ENGINE = 'e5'
     LEVEL = 'exploration'
@@ -266,3 +266,10 @@ class C09:
         if task.get('want_trace'):
             res['trace'] = traces
         return res
+
+
+from .taps import TapMixin, CascadeTap  # noqa: E402
+
+
+class C09(TapMixin, C09Base):
+    TAP_CLASS = CascadeTap
